@@ -54,8 +54,8 @@ class NumberType(Type):
             return np.isclose(float(left), float(right), rtol=Numeric.PRECISION, atol=0)
         
     def __ne__(self, other):
-        left, right = self._prepare(other)
-        return BooleanType(left != right)
+        # the negation of '==': equal up to Numeric.PRECISION is not unequal
+        return BooleanType(not self.__eq__(other))
 
     def __lt__(self, other):
         left, right = self._prepare(other)
